@@ -369,6 +369,13 @@ def check_wellformed(eng, circuit):
             ok2, again = call(parse_cdc, txt)
         eng.check(ok2, "the serialisation of an accepted circuit with values within limits is accepted again",
                   lambda: "%r: %s: %s" % (txt, type(again).__name__, again))
+        if not conds:
+            # a circuit without elements prints no numbers: its serialisation with the version header goes through the public parse_cdc as it is
+            from pyimpspec import parse_cdc
+            ok3, ser = call(circuit.serialize)
+            ok4, again = call(parse_cdc, ser) if ok3 else (False, ser)
+            eng.check(ok3 and ok4, "the serialisation of an accepted circuit with values within limits is accepted again",
+                      lambda: "serialize() = %r: %s: %s" % (ser, type(again).__name__, again))
 
 
 def make_parse_harness(n: int):
@@ -513,6 +520,30 @@ def make_skeleton_harness(index: int, holes: int, truncate: bool):
 
 
 # --------------------------------------------------------------------------- obligations
+def make_empty_harness():
+    """the empty circuit: every text that parse_cdc accepts as a circuit without elements has serialisations (plain and with the version
+    header) that are accepted again and denote the empty circuit"""
+    TEXTS = ["", "[]", " ", "\t[]\n", "!V=1![]", "[ ]", "()", "!V=1!"]
+
+    def harness(eng):
+        from pyimpspec import parse_cdc
+        from pyimpspec.exceptions import ParsingError
+        text = TEXTS[eng.choice(len(TEXTS), "text")]
+        eng.note_input("cdc", text)
+        ok, c = call(parse_cdc, text)
+        eng.check(ok or isinstance(c, (ParsingError, ValueError)), "only parsing errors escape the parser", lambda: "%r: %s: %s" % (text, type(c).__name__, c))
+        if ok:
+            eng.check(len(c.get_elements()) == 0, "empty:an element-free text denotes the empty circuit")
+            for how in ("serialize", "to_string"):
+                ok2, ser = call(getattr(c, how))
+                ok3, again = call(parse_cdc, ser) if ok2 else (False, ser)
+                eng.check(ok2 and ok3 and len(again.get_elements()) == 0, "the serialisation of an accepted circuit with values within limits is accepted again",
+                          lambda: "%s() of parse_cdc(%r) = %r: %s: %s" % (how, text, ser, type(again).__name__, again))
+            eng.reached("empty:accepted")
+        eng.reached("empty")
+    return harness
+
+
 def obligations(tier: str):
     from sx.runner import Obligation
     import pyimpspec.circuit.tokenizer as tk
@@ -550,6 +581,11 @@ def obligations(tier: str):
                            stubs=["Tokenizer.process replaced by the real token list of the code with lazy tokens in the holes"])
             o.replay = o.harness
             obs.append(o)
+    import pyimpspec.circuit.parser as pm_
+    o = Obligation("empty", make_empty_harness(), bounds="8 element-free texts (empty, blanks, [], with version header, empty parentheses): bounded enumeration",
+                   functions=[pm_.Parser.process], expect_reach=["empty", "empty:accepted"])
+    o.replay = o.harness
+    obs.append(o)
     return obs
 
 
